@@ -1940,3 +1940,155 @@ def int_arith_trait(I, a, n):
     if I.branch_bool(ov):
         raise Panic("attempt to %s with overflow" % op)
     return r
+
+
+@model(r"^<.* as std::convert::Into>::into$")
+def generic_into(I, a, n):
+    """blanket Into: dispatch to the target's From impl"""
+    g = re.match(r"^<(.*) as std::convert::Into<(.*)>>::into$", n)
+    if not g:
+        return a[0]
+    src, tgt = g.group(1).strip(), g.group(2).strip()
+    if tgt.startswith("std::boxed::Box<"):
+        return BoxV(a[0])
+    if tgt == "std::string::String":
+        return RString(list(chars_of(a[0])))
+    r = I.resolve("<%s as std::convert::From<%s>>::from" % (tgt, src), [a[0]])
+    if r is not None and r[0] == "mir":
+        return I.call_mir(r[1], [a[0]])
+    if r is not None and r[0] == "model" and r[1] is not generic_into:
+        return r[1](I, a, "<%s as std::convert::From<%s>>::from" % (tgt, src))
+    if src == tgt:
+        return a[0]
+    raise Unsupported("Into: no From<%s> for %s" % (src, tgt))
+
+
+# ---- more Option / Result combinators (so that refactored code still has models) ---------------
+@model(r"^std::option::Option::is_some_and$")
+def opt_is_some_and(I, a, n):
+    return a[0].variant == 1 and I.branch_bool(I.callf(a[1], [a[0].fields[0]]))
+
+
+@model(r"^std::option::Option::is_none_or$")
+def opt_is_none_or(I, a, n):
+    return a[0].variant == 0 or I.branch_bool(I.callf(a[1], [a[0].fields[0]]))
+
+
+@model(r"^std::result::Result::is_ok_and$")
+def res_is_ok_and(I, a, n):
+    return a[0].variant == 0 and I.branch_bool(I.callf(a[1], [a[0].fields[0]]))
+
+
+@model(r"^std::result::Result::is_err_and$")
+def res_is_err_and(I, a, n):
+    return a[0].variant == 1 and I.branch_bool(I.callf(a[1], [a[0].fields[0]]))
+
+
+@model(r"^std::option::Option::unwrap_or_else$")
+def opt_unwrap_or_else(I, a, n):
+    return a[0].fields[0] if a[0].variant == 1 else I.callf(a[1], [])
+
+
+@model(r"^std::option::Option::xor$")
+def opt_xor(I, a, n):
+    x, y = a[0], a[1]
+    if x.variant == 1 and y.variant == 0:
+        return x
+    if x.variant == 0 and y.variant == 1:
+        return y
+    return NONE()
+
+
+@model(r"^std::option::Option::and$")
+def opt_and(I, a, n):
+    return a[1] if a[0].variant == 1 else NONE()
+
+
+@model(r"^std::option::Option::zip$")
+def opt_zip(I, a, n):
+    if a[0].variant == 1 and a[1].variant == 1:
+        return SOME([a[0].fields[0], a[1].fields[0]])
+    return NONE()
+
+
+@model(r"^std::option::Option::flatten$")
+def opt_flatten(I, a, n):
+    return a[0].fields[0] if a[0].variant == 1 else NONE()
+
+
+@model(r"^std::option::Option::inspect$")
+def opt_inspect(I, a, n):
+    if a[0].variant == 1:
+        I.callf(a[1], [Ref(a[0].fields, 0)])
+    return a[0]
+
+
+@model(r"^std::option::Option::get_or_insert$")
+def opt_get_or_insert(I, a, n):
+    slot = a[0]
+    if slot.get().variant == 0:
+        slot.set(SOME(a[1]))
+    return Ref(slot.get().fields, 0)
+
+
+@model(r"^std::option::Option::as_deref_mut$")
+def opt_as_deref_mut(I, a, n):
+    return opt_as_deref(I, a, n)
+
+
+@model(r"^std::result::Result::or_else$")
+def res_or_else(I, a, n):
+    return a[0] if a[0].variant == 0 else I.callf(a[1], [a[0].fields[0]])
+
+
+@model(r"^std::result::Result::or$")
+def res_or(I, a, n):
+    return a[0] if a[0].variant == 0 else a[1]
+
+
+@model(r"^std::result::Result::and$")
+def res_and(I, a, n):
+    return a[1] if a[0].variant == 0 else a[0]
+
+
+@model(r"^std::result::Result::unwrap_err$|^std::result::Result::expect_err$")
+def res_unwrap_err(I, a, n):
+    if a[0].variant == 0:
+        raise Panic("called `Result::unwrap_err()` on an `Ok` value")
+    return a[0].fields[0]
+
+
+@model(r"^std::result::Result::inspect$")
+def res_inspect(I, a, n):
+    if a[0].variant == 0:
+        I.callf(a[1], [Ref(a[0].fields, 0)])
+    return a[0]
+
+
+@model(r"^std::result::Result::map_or$")
+def res_map_or(I, a, n):
+    return I.callf(a[2], [a[0].fields[0]]) if a[0].variant == 0 else a[1]
+
+
+@model(r"^std::result::Result::map_or_else$")
+def res_map_or_else(I, a, n):
+    return I.callf(a[2], [a[0].fields[0]]) if a[0].variant == 0 else I.callf(a[1], [a[0].fields[0]])
+
+
+@model(r"^std::result::Result::as_mut$")
+def res_as_mut(I, a, n):
+    return res_as_ref(I, a, n)
+
+
+@model(r"^std::result::Result::transpose$|^std::option::Option::transpose$")
+def transpose(I, a, n):
+    v = a[0]
+    if v.ty.split("::")[-1] == "Option":
+        if v.variant == 0:
+            return OK(NONE())
+        r = v.fields[0]
+        return OK(SOME(r.fields[0])) if r.variant == 0 else ERR(r.fields[0])
+    if v.variant == 1:
+        return SOME(ERR(v.fields[0]))
+    o = v.fields[0]
+    return SOME(OK(o.fields[0])) if o.variant == 1 else NONE()
